@@ -90,6 +90,8 @@ def writers_of_attr(M, attr, getters=(), elements=True, owner=None):
     for fn in M.all_funcs():
         if fn.parent is not None:
             continue
+        if fn.qn.endswith('.%s@setter' % attr) or fn.qn.endswith('.%s@deleter' % attr):
+            continue            # the property's own setter is how an assignment `x.attr = v` is carried out; the assignments themselves are the writers
         al = field_aliases(fn, attr, getters)
         foreign_self = owner is not None and fn.cls is not None and not any(k.name == owner for k in fn.cls.mro())
 
